@@ -1,6 +1,7 @@
 import AC.Drv.Proto
 import AC.Drv.C08
 import AC.DictAlg
+import AC.Gen.ProgramFns
 /-! driver handler for C01:
     `c01 <alg code> <n> <oracle d:e,..|-> <impl: err|panic|chain> <impl program> <end-ok> <unchanged> <deterministic> <stagewise>` -/
 namespace AC.Drv
@@ -54,5 +55,22 @@ def handleC01 (f : List String) : Res :=
       { r with nt := !pow2 && n ≥ 3, tag := s!"kind={(alg.splitOn "/").filter (fun s => s == "opt" || s == "dict" || s == "runs" || s == "seq" || s == "bin")},oracle={if orc == "-" then 0 else 1}".replace " " "" }
     | _, _, _, _ => bad "c01-parse"
   | _ => bad "c01-arity"
+
+/-- `c01ds <sum d:e,..> <impl dictsumchain(sum)>`: `dictsumchain` as TRANSLATED from dict.go and the model
+    (`P.DA.dictSumChain`, tied to each other for all inputs by `AC.DictSumTie.dictsumchain_tie`) on the sum
+    the implementation handed to it -/
+def handleC01ds (f : List String) : Res :=
+  match f with
+  | [sum, dc] =>
+    match pPairs sum with
+    | some o =>
+      let r : Res := {}
+      let g : List AC.GoPrim.GTerm := o.map fun p => ⟨(p.1 : Int), p.2⟩
+      let r := cmp "translated-dictsumchain" (match AC.Gen.Program.dictdictsumchain g with
+        | some l => showInts l | none => "panic") dc r
+      let r := cmp "dictsumchain" (showInts ((dictSumChain o).map fun (n : Nat) => (n : Int))) dc r
+      { r with nt := o.length ≥ 2, tag := "kind=[dictsumchain]" }
+    | none => bad "c01ds-parse"
+  | _ => bad "c01ds-arity"
 
 end AC.Drv
